@@ -77,6 +77,8 @@ def conforming_h(name="a.h"):
 
 
 GARBAGE = ["@", "]", "'x'", "42", "$$", ")", "\"s\""]
+# statements no primary rule recognises, wherever they stand (fatal at every statement boundary)
+UNRECOGNISABLE = ["42;", "= 3;", "+ 1;"]
 
 
 # body shapes for the statement-partition oracle: (lines, number of statements).  One
